@@ -147,3 +147,112 @@ package parquet
 //@   modifies nothing
 //@ loop (RepetitionTypes).MaxRep#1
 //@   invariant true
+
+// ---- read path: a failed Read/Seek on the source surfaces as an error (C10)
+
+//@ pred isRC(x) := dyn(x) == typeid("*parquet.readCounter") && payload(x) != 0 && external(cast("*parquet.readCounter", x).r)
+//@ pred srcOrCounter(x) := external(x) || isRC(x)
+
+//@ func (*readCounter).Read
+//@   requires r != nil && external(r.r)
+//@   modifies r, HA(p), rfault
+//@   ensures r.r == old(r.r)
+//@   ensures[C10] err == nil ==> (rfault ==> old(rfault))
+
+//@ func getMetaDataSize
+//@   requires external(r)
+//@   modifies rfault
+//@   ensures[C10] err == nil ==> (rfault ==> old(rfault))
+
+//@ func ReadMetaData
+//@   requires external(r)
+//@   modifies heap("parquet.readCounter"), rfault
+//@   ensures[C10] err == nil ==> (rfault ==> old(rfault))
+
+//@ func (*Metadata).ReadFooter
+//@   requires m != nil && external(r)
+//@   modifies m, heap("parquet.readCounter"), rfault
+//@   ensures[C10] err == nil ==> (rfault ==> old(rfault))
+
+//@ func PageHeader
+//@   requires srcOrCounter(r)
+//@   modifies heap("parquet.readCounter"), rfault
+//@   ensures res0 != nil && freshsince(res0)
+//@   ensures[C10] err == nil ==> (rfault ==> old(rfault))
+
+//@ func pageData
+//@   requires srcOrCounter(r) && ph != nil
+//@   modifies heap("parquet.readCounter"), rfault
+//@   ensures freshOrNil(res0)
+//@   ensures[C10] err == nil ==> (rfault ==> old(rfault))
+
+//@ func readLevels
+//@   requires dyn(in) == typeid("*bytes.Buffer") && payload(in) != 0
+//@   modifies obj(in)
+//@   ensures freshOrNil(res0)
+
+//@ func (*RequiredField).DoRead
+//@   requires external(r)
+//@   modifies heap("parquet.readCounter"), rfault
+//@   ensures err == nil ==> dyn(res0) == typeid("*bytes.Buffer") && payload(res0) != 0
+//@   ensures[C10] err == nil ==> (rfault ==> old(rfault))
+//@ loop (*RequiredField).DoRead#1
+//@   invariant (rfault ==> old(rfault)) && freshOrNil(out) && freshOrNil(sizes)
+
+//@ func (*OptionalField).DoRead
+//@   requires f != nil && external(r)
+//@   free-requires f.MaxLevels.Def <= 15 && f.MaxLevels.Rep <= 15
+//@   modifies f, HA(f.Defs), HA(f.Reps), heap("parquet.readCounter"), rfault
+//@   ensures err == nil ==> dyn(res0) == typeid("*bytes.Buffer") && payload(res0) != 0
+//@   ensures[C10] err == nil ==> (rfault ==> old(rfault))
+//@ loop (*OptionalField).DoRead#1
+//@   invariant (rfault ==> old(rfault)) && freshOrNil(out) && freshOrNil(sizes) && sameOrFresh(f.Defs) && sameOrFresh(f.Reps)
+
+//@ func (*OptionalField).Values
+//@   modifies nothing
+//@ func (*OptionalField).valsFromDefs
+//@   modifies nothing
+//@ loop (*OptionalField).valsFromDefs#1
+//@   invariant true
+
+//@ func GetBools
+//@   requires dyn(r) == typeid("*bytes.Buffer") && payload(r) != 0
+//@   modifies obj(r)
+//@   ensures rfault == old(rfault)
+//@ loop GetBools#1
+//@   invariant freshOrNil(out) && freshOrNil(data)
+//@ loop GetBools#2
+//@   invariant freshOrNil(out) && freshOrNil(data)
+//@ loop GetBools#3
+//@   invariant freshOrNil(out) && freshOrNil(data)
+//@ func min
+//@   modifies nothing
+//@ func unpackBools
+//@   modifies nothing
+
+//@ func (*Metadata).Pages
+//@   requires m != nil
+//@   modifies nothing
+//@ loop (*Metadata).Pages#1
+//@   invariant out != nil && freshsince(out)
+//@ loop (*Metadata).Pages#2
+//@   invariant out != nil && freshsince(out)
+
+//@ func (*Metadata).RowGroups
+//@   requires m != nil
+//@   modifies nothing
+//@ loop (*Metadata).RowGroups#1
+//@   invariant freshsince(rgs)
+
+//@ func (*Metadata).Rows
+//@   modifies nothing
+//@ func (*RowGroup).Columns
+//@   modifies nothing
+//@ func (*RequiredField).Name
+//@   modifies nothing
+//@ func (*RequiredField).Path
+//@   modifies nothing
+//@ func (*OptionalField).Name
+//@   modifies nothing
+//@ func (*OptionalField).Path
+//@   modifies nothing
